@@ -98,6 +98,12 @@ func (g *c10gen) block(d int, cx c10ctx) []pt.Stmt {
 	if cx.inFunc {
 		feats = append(feats, "cond-return", "return")
 	}
+	if cx.nested && cx.inLoop {
+		feats = append(feats, "shadow-break") // leaves the loop while a shadowing declaration is live
+	}
+	if cx.nested && cx.inFunc {
+		feats = append(feats, "shadow-return")
+	}
 	feat := feats[g.c.Choose(len(feats), "feature")]
 	var tail []pt.Stmt
 	shadowed := false
@@ -109,6 +115,18 @@ func (g *c10gen) block(d int, cx c10ctx) []pt.Stmt {
 	case "shadow":
 		out = append(out, pt.InferDecl{Name: "g", X: pt.S("sh" + id)}, g.str("s"+id, pt.V("g")))
 		shadowed = true
+	case "shadow-break":
+		out = append(out, pt.InferDecl{Name: "g", X: pt.S("sh" + id)}, g.str("s"+id, pt.V("g")))
+		shadowed = true
+		tail = []pt.Stmt{pt.Break{}}
+	case "shadow-return":
+		out = append(out, pt.InferDecl{Name: "g", X: pt.S("sh" + id)}, g.str("s"+id, pt.V("g")))
+		shadowed = true
+		if cx.retNum {
+			tail = []pt.Stmt{pt.Return{X: pt.N(7)}}
+		} else {
+			tail = []pt.Stmt{pt.Return{}}
+		}
 	case "cond-break":
 		out = append(out, pt.If{Conds: []pt.Expr{pt.Bin(">=", pt.V("g"), pt.N(1))}, Blocks: [][]pt.Stmt{{g.marker("cb" + id), pt.Break{}}}})
 	case "break":
@@ -223,8 +241,11 @@ func runC10(w *fw.Worker) {
 			body := g.block(d, c10ctx{})
 			stmts := []pt.Stmt{pt.InferDecl{Name: "g", X: pt.N(0)}}
 			stmts = append(stmts, body...)
+			// a global declared after the nested body is visible to functions: the body left the scope stack balanced
+			stmts = append(stmts, pt.InferDecl{Name: "late", X: pt.Bin("+", pt.V("g"), pt.N(1))}, pt.CallStmt{C: pt.C("showlate")})
 			stmts = append(stmts, pt.Print(pt.S("end"), pt.V("g")))
 			stmts = append(stmts, g.funcs...)
+			stmts = append(stmts, pt.Func{Name: "showlate", Body: []pt.Stmt{pt.Print(pt.S("late"), pt.V("late"), pt.V("g"))}})
 			count++
 			do("nesting", d >= 2, &pt.Prog{Stmts: stmts}, d == 2 && count%500 == 0)
 		}, func(*fw.Ctx) bool { return !w.Expired() })
